@@ -119,6 +119,7 @@ protected:
                                   const std::string &den, bool paren);
     virtual std::string get_imag_symbol();
     virtual std::string parenthesize(const std::string &expr);
+    virtual PrecedenceEnum get_precedence(const RCP<const Basic> &x);
     std::string parenthesizeLT(const RCP<const Basic> &x,
                                PrecedenceEnum precedenceEnum);
     std::string parenthesizeLE(const RCP<const Basic> &x,
